@@ -465,6 +465,13 @@ pub fn feed_pipelines<W: World + Debug + 'static>(
                         evjson::payload(&Arc::from(e)))})
             });
             v["pipeline"] = json!(n);
+            v["fos"] = json!(n.contains("fos:"));
+            if v.get("failed").is_none() {
+                v["failed"] = json!(false);
+            }
+            if v.get("writer_panic").is_none() {
+                v["writer_panic"] = json!("");
+            }
             v
         })
         .collect()
